@@ -344,6 +344,31 @@ func (u *Unit) checkExit(st *State, site int) {
 		sort.Strings(ks)
 		u.oblige(st, fmt.Sprintf("lock.released@return.%d", site), "lock", "locks still held at return: "+strings.Join(ks, ","), "false", false)
 	}
+	if f := u.ct.Flags["atomic-once"]; f != "" {
+		// device (ii): the shared field is touched at most once per call, by a single atomic operation,
+		// and never by a plain (non-atomic) access.
+		nAtomic, nPlain := 0, 0
+		last := ""
+		for _, op := range st.atomicOps {
+			parts := strings.SplitN(op, " ", 2)
+			if parts[1] == f {
+				if !(last == "read "+f && parts[0] == "write") { // read+write of one RMW counts once
+					nAtomic++
+				}
+			}
+			last = op
+		}
+		for _, op := range st.plainOps {
+			if op == f {
+				nPlain++
+			}
+		}
+		goal := "false"
+		if nAtomic <= 1 && nPlain == 0 {
+			goal = "true"
+		}
+		u.oblige(st, fmt.Sprintf("atomic-once@return.%d", site), "atomic-once", fmt.Sprintf("%s accessed by at most one atomic operation and no plain access (atomic ops %d, plain %d)", f, nAtomic, nPlain), goal, false)
+	}
 	if u.eng.tier == "thorough" {
 		u.cover(st, fmt.Sprintf("reach@return.%d", site), "return site reachable")
 	}
@@ -454,6 +479,11 @@ func (u *Unit) guardedWrite(st *State, base *Val, field string, at ast.Node) {
 func (u *Unit) guardedAccess(st *State, base *Val, field string, at ast.Node, write bool) {
 	if u.quiet > 0 {
 		return
+	}
+	if u.inAtomic == 0 {
+		if se, ok := at.(*ast.SelectorExpr); ok {
+			st.plainOps = append(st.plainOps, exprString(se))
+		}
 	}
 	ts := u.typeSpecOf(base.T)
 	if ts == nil || len(ts.Guarded) == 0 {
